@@ -92,7 +92,7 @@ def main(argv=None):
         try:
             doc = json.load(open(path, encoding="utf-8"))
             core.reset_globals()
-            f = mod.REPLAY[doc["check"]](doc["case"], core.Ev())
+            f = core.call_check(mod.REPLAY[doc["check"]], doc["case"], core.Ev())
         except Exception:
             traceback.print_exc()
             print("HARNESS-ERROR property=%s malformed replay %s" % (prop, path))
@@ -219,7 +219,7 @@ def replay_one(mod, prop, path, known):
 
     try:
         doc = json.load(open(path, encoding="utf-8"))
-        f = mod.REPLAY[doc["check"]](doc["case"], core.Ev())
+        f = core.call_check(mod.REPLAY[doc["check"]], doc["case"], core.Ev())
     except Exception:
         traceback.print_exc()
         print("HARNESS-ERROR property=%s malformed replay %s" % (prop, path))
